@@ -20,7 +20,7 @@ ENCODES = ["pycel.excelcompiler:ExcelCompiler._gen_graph", "pycel.excelcompiler:
            "pycel.excelcompiler:ExcelCompiler._evaluate", "pycel.excelcompiler:ExcelCompiler._evaluate_non_iterative",
            "pycel.excelwrapper:ExcelOpxWrapper.get_range", "pycel.excelwrapper:ExcelOpxWrapperNoData.get_range",
            "pycel.excelwrapper:ExcelOpxWrapper.max_col_row"]
-BOUNDS = ["templates of C01 (quick: chain, sumrange, rangeform, nested, cse, twosheet)",
+BOUNDS = ["templates of C01 (quick: chain, sumrange, rangeform, nested, cse, twosheet, tables = this-row structured references in a table at the same position on two sheets)",
           "first-evaluation orders: all permutations of the formula cells (<= 4 cells: 24 orders; thorough) / identity, reverse, "
           "rotations and one interleaving (quick)",
           "access paths: cell, declared ranges containing it, unbounded column/row ranges clipped to the used area, list / tuple / "
@@ -39,6 +39,8 @@ RANGES = {
     "name": ("A1:A2", "A1:C1"),
     "twosheet": ("A1:A2", "B1:C1"),
     "cseiferr": ("A1:A3", "E1:E3"),
+    "tables": ("C2:C3", "A2:C2"),
+    "unbounded": ("A1:A3", "B1:D1"),
 }
 
 
@@ -47,7 +49,7 @@ def _model(tname, subst):
         return ExcelCompiler(excel=wb.SubstWrapper(wb.make_workbook(tname), subst))
 
 
-NSYM = {"cseiferr": 1, "cse": 2}
+NSYM = {"cseiferr": 1, "cse": 2, "tables": 2}
 
 
 def _subst(tname, ks, vs, kmax=2):
@@ -157,7 +159,7 @@ def ob_access(tname, rng_first, k0: int = 0, v0: int = 0, k1: int = 0, v1: int =
     return True
 
 
-QUICK = ("chain", "sumrange", "rangeform", "nested", "cse", "cseiferr", "twosheet")
+QUICK = ("chain", "sumrange", "rangeform", "nested", "cse", "cseiferr", "twosheet", "tables")
 
 
 def _orders(tname, tier):
